@@ -267,6 +267,73 @@ func c15(c *an.Ctx) {
 		}
 	})
 
+	c.Check("R-CMP", "values decoded from client JSON (interface{}) are never compared with == / != : two lists or objects would panic with 'comparing uncomparable type'", 1, func(o *an.O) {
+		// every function of the packages that handle client-supplied values: graphql (parser,
+		// validation, executor, server) and its schema builder adapters (argument parsing).
+		// (diff.diffMap and the federation executor compare __key values with != : those come
+		// from resolvers / member services, not from the client, and are outside this property.)
+		isEmptyIface := func(t types.Type) bool {
+			it, ok := t.Underlying().(*types.Interface)
+			return ok && it.NumMethods() == 0
+		}
+		n := 0
+		for _, fn := range p.ModuleFuncs(func(rel string) bool {
+			return rel == gq || rel == sbp
+		}) {
+			n++
+			an.Instrs(fn, func(i ssa.Instruction) {
+				bo, ok := i.(*ssa.BinOp)
+				if !ok || (bo.Op != token.EQL && bo.Op != token.NEQ) {
+					return
+				}
+				if !isEmptyIface(bo.X.Type()) || !isEmptyIface(bo.Y.Type()) {
+					return
+				}
+				if isConstNil(bo.X) || isConstNil(bo.Y) {
+					return
+				}
+				// a freshly boxed comparable value on one side cannot panic for slices/maps on the other?
+				// it can not: comparing interface values of different dynamic types is false without
+				// looking at the contents, so one side of known comparable dynamic type is safe
+				for _, v := range []ssa.Value{bo.X, bo.Y} {
+					if mi, ok := v.(*ssa.MakeInterface); ok && types.Comparable(mi.X.Type()) {
+						return
+					}
+				}
+				// one side already failed the type assertions to the JSON list and object types (the
+				// default branch of a type switch over the JSON shapes): what is left is comparable
+				for _, v := range []ssa.Value{bo.X, bo.Y} {
+					excluded := map[string]bool{}
+					for _, g := range an.GuardsOf(i.Block()) {
+						if g.Polarity {
+							continue
+						}
+						ex, ok := g.Cond.(*ssa.Extract)
+						if !ok || ex.Index != 1 {
+							continue
+						}
+						if ta, ok := ex.Tuple.(*ssa.TypeAssert); ok && ta.X == v {
+							switch ta.AssertedType.Underlying().(type) {
+							case *types.Slice:
+								excluded["slice"] = true
+							case *types.Map:
+								excluded["map"] = true
+							}
+						}
+					}
+					if excluded["slice"] && excluded["map"] {
+						return
+					}
+				}
+				o.FailAt(i, "%s compares two interface{} values with %s (%s): if both hold a list or an object decoded from the query or its variables the comparison panics at run time, on a goroutine without recover", an.QualName(fn), bo.Op, an.Short(an.Expr(bo), 70))
+			})
+		}
+		o.SitePos(p.Pos(c.NeedFunc(gq, "Parse").Pos()))
+		if n < 100 {
+			o.Undecided("only %d functions of package graphql were scanned", n)
+		}
+	})
+
 	c.Check("R-REC", "every recursive walk through SelectionSet.Fragments has a visited-set guard keyed by the recursion argument", 4, func(o *an.O) {
 		// candidates: functions (incl. closures) in graphql/federation that open a fragment body and
 		// (transitively, within the module) call themselves with it.
@@ -862,7 +929,6 @@ func cellOf(v ssa.Value) ssa.Value {
 	}
 	return v
 }
-
 
 // persistentMemo: some closure of parent looks its *Fragment / *SelectionSet
 // parameter up in a map, returns success without descending when the entry
